@@ -126,6 +126,29 @@ def sizeCases (W H : Nat) : G (List String) := do
       out := s!"PP 1 {hexOf p}" :: out
   pure out.reverse
 
+/-- pictures whose declared width or height sits at the top of the 16-bit range (the other dimension small): header plus the
+first macroblocks; both Sorenson versions -/
+def edgeSizeCases (pp : Bool) (count : Nat) : G (List String) := do
+  let mut out : List String := []
+  let sizes : List (Nat × Nat) := [(65535, 1), (65535, 2), (1, 65535), (4, 65535), (65534, 3), (65521, 2), (2, 65521), (65520, 1), (65535, 16),
+                 (16, 65535), (32768, 1), (32769, 2), (4097, 3), (255, 256), (256, 255), (256, 1), (1, 256)]
+  -- `count` > 0: only the first `count` sizes, one stream version (quick tier)
+  for (w, h) in (if count = 0 then sizes else sizes.take count) do
+    for v in (if count = 0 then [0, 1] else [1]) do
+      let q ← range 1 31
+      let hdr : SorensonHdr := { version := v, tr := w % 256, sizeCode := 1, customW := w, customH := h, picType := 0,
+                                 deblock := false, quant := q, extra := [] }
+      -- complete pictures (every macroblock present, so that they decode and can be post-processed), DC-only blocks
+      let total := ((w + 15) / 16) * ((h + 15) / 16)
+      let dcv ← range 1 254
+      let dcv := if dcv = 128 then 129 else dcv
+      let blk : BlockD := { dc := some dcv }
+      let mb : MbD := { stuffing := 0, kind := .coded .intra 0 (0, 0) ((0, 0), (0, 0), (0, 0)) [blk, blk, blk, blk, blk, blk] }
+      let mbs := List.replicate total mb
+      let p : PicD := { hdr := .sorenson hdr, mbs := mbs }
+      out := (if pp then s!"PP 1 {hexOf p}" else s!"P 1 d:{hexOf p}") :: out
+  pure out.reverse
+
 /-- hand-built stress streams for C01: zero sizes, 11-bit levels at high quantizers, more macroblock data than the picture
 holds, a reference of another size -/
 def stressCases : G (List String) := do
@@ -184,6 +207,8 @@ def stressCases : G (List String) := do
 
 def runGen (kind : String) (seed count : Nat) : List String :=
   if kind == "stress" then (stressCases.run (seed * 2654435761 + 7)).1 else
+  if kind == "edgesizes" then ((edgeSizeCases false count).run (seed * 2654435761 + 31)).1 else
+  if kind == "edgesizespp" then ((edgeSizeCases true count).run (seed * 2654435761 + 31)).1 else
   if kind == "sizes" then ((sizeCases count count).run (seed * 2654435761 + 99)).1 else
   if kind.startsWith "annexa" then annexACases (kind.drop 6).toString.toNat! seed count else
   if kind == "dquant" then dquantCases else
